@@ -46,6 +46,22 @@ theorem termSum_reverse (ts : Terms K) (w : K) : termSum ts.reverse w = termSum 
   | nil => rfl
   | cons t ts ih => simp [termSum_append, ih, add_comm]
 
+theorem termSum_insertTerm (t : Int × K) (us : Terms K) (w : K) :
+    termSum (insertTerm t us) w = t.2 * w ^ t.1 + termSum us w := by
+  induction us with
+  | nil => simp [insertTerm]
+  | cons u us ih =>
+    simp only [insertTerm]
+    split
+    · simp
+    · simp only [termSum_cons, ih]; ring
+
+/-- `sorted()` only reorders the terms -/
+theorem termSum_sortTerms (ts : Terms K) (w : K) : termSum (sortTerms ts) w = termSum ts w := by
+  induction ts with
+  | nil => rfl
+  | cons t ts ih => simp [sortTerms, termSum_insertTerm, ih]
+
 theorem evalFrom_eq_pow (w : K) (i : Nat) (c : List K) :
     evalFrom w i c = w ^ i * evalFrom w 0 c := by
   induction c generalizing i with
@@ -132,14 +148,15 @@ theorem evalPoly_termSum (ts : Terms K) (w : K) (hw : w ≠ 0) : evalPoly ts w =
     simp only [evalPoly, hw, if_false]
     split
     · -- Horner
-      have hrev := termSum_reverse (t :: ts) w
-      generalize (t :: ts).reverse = r at hrev
+      have hrev := termSum_reverse (sortTerms (t :: ts)) w
+      rw [termSum_sortTerms] at hrev
+      generalize (sortTerms (t :: ts)).reverse = r at hrev
       cases r with
       | nil => rw [← hrev]; rfl
       | cons u us =>
         simp only [zpw_eq_zpow]
         rw [horner_path w hw, ← hrev, termSum_cons]
-    · rw [general_path]; simp
+    · rw [general_path, termSum_sortTerms]; simp
 
 /-- `Poly(c)(w)` is `Σ c_k w^k` for every `w` (also `w = 0`). -/
 theorem evalPoly_polyFrom (c : List K) (w : K) : evalPoly (polyFrom 0 c) w = evalDirect c w := by
@@ -179,38 +196,103 @@ theorem polyFrom_eq_nil (i : Nat) (c : List K) :
     · simp [polyFrom, hx, ih]
     · simp [polyFrom, hx]
 
-/-- **freq_response is the transfer function** (any field, any non-zero point). -/
-theorem respOfFilter_eq_spec (b a : List K) (w : K) (hw : w ≠ 0) :
-    respOfFilter b a w = respSpec b a w := by
-  unfold respOfFilter respSpec mkFilter
-  cases hm : minKey (polyFrom 0 a) with
+theorem minKey_isNone (ts : Terms K) : minKey ts = none ↔ ts.isEmpty = true := by
+  rw [minKey_eq_none]; cases ts <;> simp
+
+/-- the constructor's normalisation followed by `freq_response`, for arbitrary stored terms -/
+theorem resp_finishFilter (num den : Terms K) (w : K) (hw : w ≠ 0) :
+    respOfMk (finishFilter num den) w
+      = if den.isEmpty then Resp.valueError
+        else if termSum den w = 0 then Resp.nan
+        else Resp.val (termSum num w / termSum den w) := by
+  unfold finishFilter respOfMk
+  cases hm : minKey den with
   | none =>
-    have := (polyFrom_eq_nil 0 a).1 ((minKey_eq_none _).1 hm)
-    simp only [hm, this, if_true]
+    have := (minKey_isNone den).1 hm
+    simp only [this, if_true]
   | some p =>
-    have hne : ¬ (a.all (fun x => decide (x = 0)) = true) := by
+    have hne : ¬ (den.isEmpty = true) := by
       intro h
-      have := (minKey_eq_none _).2 ((polyFrom_eq_nil 0 a).2 h)
-      rw [this] at hm; cases hm
+      rw [(minKey_isNone den).2 h] at hm; cases hm
     have hp : w ^ p ≠ 0 := zpow_ne_zero _ hw
-    simp only [hm, hne, if_false, Bool.false_eq_true]
+    simp only [hne, if_false, Bool.false_eq_true]
     by_cases hp0 : p = 0
-    · subst hp0
-      simp [freqResponse, Hspec, evalPoly_polyFrom]
-      split <;> rename_i h <;> rw [h]
-    · simp only [ne_eq, hp0, not_false_eq_true, if_true, freqResponse, Hspec,
-        evalPoly_shift_polyFrom _ _ _ hw]
-      by_cases hd : evalDirect a w = 0
+    · simp only [ne_eq, hp0, not_true_eq_false, if_false, freqResponse, evalPoly_termSum _ _ hw]
+      by_cases hd : termSum den w = 0
       · simp [hd]
-      · have : evalDirect a w / w ^ p ≠ 0 := div_ne_zero hd hp
+      · simp [hd]
+    · simp only [ne_eq, hp0, not_false_eq_true, if_true, freqResponse, evalPoly_termSum _ _ hw,
+        termSum_shift _ _ _ hw]
+      by_cases hd : termSum den w = 0
+      · simp [hd]
+      · have : termSum den w / w ^ p ≠ 0 := div_ne_zero hd hp
         simp only [this, hd, if_false]
         congr 1
         field_simp
 
+theorem polyFrom_isEmpty (i : Nat) (c : List K) :
+    (polyFrom i c).isEmpty = c.all (fun x => decide (x = 0)) := by
+  have := polyFrom_eq_nil i c
+  cases h : polyFrom i c with
+  | nil => rw [h] at this; simp [this.1 rfl]
+  | cons t ts =>
+    rw [h] at this
+    simp only [List.isEmpty_cons]
+    cases hc : c.all (fun x => decide (x = 0)) with
+    | false => rfl
+    | true => exact absurd (this.2 hc) (by simp)
+
+/-- **freq_response is the transfer function** (any field, any non-zero point). -/
+theorem respOfFilter_eq_spec (b a : List K) (w : K) (hw : w ≠ 0) :
+    respOfFilter b a w = respSpec b a w := by
+  unfold respOfFilter mkFilter
+  rw [resp_finishFilter _ _ _ hw, polyFrom_isEmpty, termSum_polyFrom, termSum_polyFrom]
+  unfold respSpec Hspec evalDirect
+  split
+  · rfl
+  · split <;> rfl
+
+/-! #### filters given as `{delay: coefficient}` dicts -/
+
+theorem termSum_compact (ts : Terms K) (w : K) : termSum (compact ts) w = termSum ts w := by
+  induction ts with
+  | nil => rfl
+  | cons t ts ih =>
+    have ih' : termSum (List.filter (fun t => !decide (t.2 = 0)) ts) w = termSum ts w := ih
+    by_cases ht : t.2 = 0
+    · simp [compact, List.filter_cons, ht, ih']
+    · simp [compact, List.filter_cons, ht, ih']
+
+theorem compact_isEmpty (ts : Terms K) :
+    (compact ts).isEmpty = ts.all (fun t => decide (t.2 = 0)) := by
+  induction ts with
+  | nil => rfl
+  | cons t ts ih =>
+    have ih' : (List.filter (fun t => !decide (t.2 = 0)) ts).isEmpty = ts.all (fun t => decide (t.2 = 0)) := ih
+    by_cases ht : t.2 = 0
+    · simp [compact, List.filter_cons, ht, ih']
+    · simp [compact, List.filter_cons, ht]
+
+theorem evalTerms_eq (ts : Terms K) (w : K) : evalTerms ts w = termSum ts w := by
+  induction ts with
+  | nil => rfl
+  | cons t ts ih => simp [evalTerms, ih, zpw_eq_zpow]
+
+/-- **freq_response of a dict-defined (possibly non-causal, sparse, unordered) filter** -/
+theorem respOfTerms_eq_spec (num den : Terms K) (w : K) (hw : w ≠ 0) :
+    respOfTerms num den w = respSpecTerms num den w := by
+  unfold respOfTerms mkFilterTerms
+  rw [resp_finishFilter _ _ _ hw, compact_isEmpty, termSum_compact, termSum_compact]
+  unfold respSpecTerms HspecTerms
+  simp only [evalTerms_eq]
+  split
+  · rfl
+  · split <;> rfl
+
 /-- a denominator whose constant term is stored: no shift, the equality holds at every point -/
 theorem respOfFilter_eq_spec_of_head (b a : List K) (a0 : K) (h0 : a0 ≠ 0) (w : K) :
     respOfFilter b (a0 :: a) w = respSpec b (a0 :: a) w := by
-  unfold respOfFilter respSpec mkFilter
+  unfold respOfFilter respOfMk respSpec mkFilter finishFilter
   have hmin : minKey (polyFrom 0 (a0 :: a)) = some 0 := by
     simp only [polyFrom, h0, if_false]
     -- every later key is ≥ 1
